@@ -7,6 +7,7 @@ open Emboss.Scope
 #print axioms C12_resolve_iff_unique
 #print axioms C12_resolve_missing
 #print axioms C12_resolve_ambiguous
+#print axioms C12_accepted_all_resolved
 #print axioms C12_duplicates_rejected
 #print axioms C12_duplicates_rejected_pair
 #print axioms C12_canonical_roundtrip
